@@ -9,17 +9,18 @@
 #define CI_N (self->_nNx)
 #define CI_SLOT(nn, mm) ((long long)(mm) * CI_N - (long long)(mm) * ((mm) - 1) / 2 + (nn))
 /*@ clause pre.range src=call-site */
-__CPROVER_requires(0 <= CI_N && CI_N <= 32767 && 0 <= m && m <= n && n <= CI_N)
+/* (the constructor also evaluates index(-1, -1) for an empty sum, and accepts a storage degree N that is not used then) */
+__CPROVER_requires(-32768 <= CI_N && CI_N <= 32767 && -1 <= m && m <= n && n <= 32767)
 /*@ clause frame src=property props=C14 */
 __CPROVER_assigns()
 /*@ clause post.slot src=header props=C19 */
 __CPROVER_ensures((long long)__CPROVER_return_value == CI_SLOT(n, m))
 /*@ clause post.in_vector src=header props=C19,C13 tier=thorough */
 /* for any maximum order M with m <= M <= N (ghost), the slot lies inside a vector of Csize(N, M) entries */
-__CPROVER_ensures(!(m <= verif_ghost_int && verif_ghost_int <= CI_N) ||
+__CPROVER_ensures(!(0 <= m && n <= CI_N && m <= verif_ghost_int && verif_ghost_int <= CI_N) ||
                   (0 <= __CPROVER_return_value && (long long)__CPROVER_return_value < ((long long)verif_ghost_int + 1) * (2LL * CI_N - verif_ghost_int + 2) / 2))
 /*@ clause post.injective src=header props=C19 tier=thorough */
 /* another pair (n2, m2) = (ghost, ghost) in range with a different order or degree has a different slot */
-__CPROVER_ensures(!(0 <= verif_ghost_int2 && verif_ghost_int2 <= (int)(verif_ghost_idx % 32768) && (int)(verif_ghost_idx % 32768) <= CI_N) ||
+__CPROVER_ensures(!(0 <= m && n <= CI_N && 0 <= verif_ghost_int2 && verif_ghost_int2 <= (int)(verif_ghost_idx % 32768) && (int)(verif_ghost_idx % 32768) <= CI_N) ||
                   (verif_ghost_int2 == m && (int)(verif_ghost_idx % 32768) == n) ||
                   CI_SLOT((int)(verif_ghost_idx % 32768), verif_ghost_int2) != (long long)__CPROVER_return_value)
